@@ -128,8 +128,12 @@ type FaultWriter struct {
 	// Limit >= 0: only the first Limit bytes in total are accepted; the write
 	// that crosses the limit is short and fails, and so do all later ones.
 	Limit int
-	Calls int
-	Err   error
+	// LimitOnce: the short write at Limit is reported once; later calls are
+	// accepted in full again (a transient fault in the middle of a chunk).
+	LimitOnce bool
+	limitHit  bool
+	Calls     int
+	Err       error
 }
 
 func NewFaultWriter() *FaultWriter {
@@ -142,9 +146,10 @@ func (w *FaultWriter) Write(p []byte) (int, error) {
 	if call == w.FailCall {
 		return 0, w.Err
 	}
-	if w.Limit >= 0 {
+	if w.Limit >= 0 && !(w.LimitOnce && w.limitHit) {
 		room := w.Limit - len(w.Buf)
 		if room < len(p) {
+			w.limitHit = true
 			if room < 0 {
 				room = 0
 			}
